@@ -81,6 +81,7 @@ def run_spec(spec: dict, keep_events: bool = False, watchdog_s: float | None = N
         'interleaving': sha(run.trace_sig),
         'nontrivial': nontrivial,
         'decisions': decisions,
+        'switch_log': list(run.sched.switch_log) if run.sched is not None else None,
         'n_events': len(run.events),
         'stmts': run.stmts,
         'stmts_total': n_total,
